@@ -1,13 +1,22 @@
 import CkptVerif.Proofs.MultistageE2E
+import CkptVerif.Proofs.OfflineE2E
+import CkptVerif.Proofs.Meaning
 /-!
 # Stream properties C01, C02, C03, C04, C08, C09, C11, C12, C18 per schedule class
 
 `monitor cfg k trace = []` says the canonical trace of the model object passes EVERY check of the
-specification executor and monitor (all tags), so each tagged property holds for that class.
+specification executor and monitor (all tags), so each tagged property holds for that class, for
+ALL valid parameters (no bound on n, unit counts, cost vectors).  What "no violation tagged P"
+means declaratively is proved class-independently in `Proofs/Meaning.lean` (`meaning_*` below).
 
-| class | theorem | status |
-|---|---|---|
-| Multistage | `streams_multistage` | proved, all valid parameters, both trajectories, every split |
+| class | theorem |
+|---|---|
+| Multistage (every RAM/DISK split, both trajectories) | `streams_multistage` |
+| Mixed (both storages)                                 | `streams_mixed` |
+| Revolve                                               | `streams_revolve` |
+| DiskRevolve                                           | `streams_diskRevolve` |
+| PeriodicDiskRevolve                                   | `streams_periodic` |
+| HRevolve, SingleMemory, SingleDisk, None, TwoLevel    | see `StreamsMore.lean` |
 -/
 namespace Ckpt
 
@@ -18,5 +27,41 @@ theorem streams_multistage (N ram disk : Nat) (traj : Traj)
       ∀ k fuel, evs.length + 4 ≤ fuel →
         monitor (cfgMultistage ram disk N) k (s.canon N k fuel) = [] :=
   multistage_monitor_clean N ram disk traj hv
+
+theorem streams_mixed (N s : Nat) (st : Storage) (hv : validMixed N s st = true) :
+    ∃ sch evs, mixedSched memoPlan N s st = .ok sch ∧ mixedEvs memoPlan N s st = .ok evs ∧
+      ∀ k fuel, evs.length + 4 ≤ fuel →
+        monitor (cfgMixed s st N) k (sch.canon N k fuel) = [] :=
+  mixed_monitor_clean N s st hv
+
+theorem streams_revolve (N cm : Nat) (c : Costs) (hv : validRevolve N cm c.uf c.ub = true) :
+    ∃ sch evs, revolveSched N cm c = .ok sch ∧ revolveEvs N cm c = .ok evs ∧
+      ∀ k fuel, evs.length + 4 ≤ fuel →
+        monitor (cfgRevolve cm N) k (sch.canon N k fuel) = [] :=
+  revolve_monitor_clean N cm c hv
+
+theorem streams_diskRevolve (N cm : Nat) (c : Costs) (hv : validRevolve N cm c.uf c.ub = true) :
+    ∃ sch evs, diskRevolveSched N cm c = .ok sch ∧ diskRevolveEvs N cm c = .ok evs ∧
+      ∀ k fuel, evs.length + 4 ≤ fuel →
+        monitor (cfgDiskRevolve cm N) k (sch.canon N k fuel) = [] :=
+  diskRevolve_monitor_clean N cm c hv
+
+theorem streams_periodic (N cm : Nat) (c : Costs) (hv : validRevolve N cm c.uf c.ub = true) :
+    ∃ sch evs, periodicSched N cm c = .ok sch ∧ periodicEvs N cm c = .ok evs ∧
+      ∀ k fuel, evs.length + 4 ≤ fuel →
+        monitor (cfgDiskRevolve cm N) k (sch.canon N k fuel) = [] :=
+  periodic_monitor_clean N cm c hv
+
+/-! ## what the tags mean (class-independent, for arbitrary streams) -/
+
+alias meaning_C03_budgets := Mean.M1_C03
+alias meaning_C04_clean_storage := Mean.M2_C04
+alias meaning_C02_reverse_tiles := Mean.M3c_tiles
+alias meaning_C02_all_reversed := Mean.M3d_tiles
+alias meaning_C01_load := Mean.M4_C01_load
+alias meaning_C01_reverse := Mean.M4_C01_reverse
+alias meaning_C12_one_step := Mean.M5_C12
+
+example : validMultistage 17 2 1 = true ∧ validMixed 9 2 .disk = true ∧ validRevolve 7 2 3 1 = true := by decide
 
 end Ckpt
